@@ -86,15 +86,20 @@ def run_rule(rd, ctx):
     r = R(rd)
     try:
         rd.func(ctx, r)
-        if len(r.obligations) < rd.min_obligations:
+        if len(r.obligations) < rd.min_obligations and not r.findings:
             raise AnalysisError(
                 rd.id,
                 f"matched {len(r.obligations)} rule instances, fewer than the {rd.min_obligations} confirmed by hand "
                 "(a rule must not pass vacuously)",
             )
     except AnalysisError as exc:
-        out.verdict = "UNKNOWN"
         out.error = f"{exc.rule}: {exc.reason}" if exc.rule != rd.id else exc.reason
+        if r.findings:
+            # breaches recognised before the analysis lost track are still breaches
+            r.notes.append("analysis stopped early: " + out.error)
+            out.error = None
+        else:
+            out.verdict = "UNKNOWN"
     except RecursionError:
         out.verdict = "UNKNOWN"
         out.error = "recursion limit in analysis"
